@@ -37,9 +37,11 @@ def obligations(tier):
         heavy = o in ("mul", "div", "mod")
         if heavy:
             # symbolic operand types in front of a 64-bit multiplier/divider: no verdict in 25 min (z3); type pairs concrete instead
-            for a, b in (pairs if tier != "quick" else pairs[:5]):
+            # quick: the two pairs with an UNSIGNED result type (32 and 64 bits), about 5 CPU-minutes each; signed results (overflow side
+            # condition on top of the multiplier/divider) took > 15 minutes: thorough tier only, long timeout
+            for a, b in (pairs if tier != "quick" else [(7, 6), (9, 10)]):
                 obs.append(Ob("fold.%s.%s_%s" % (o, tn[a], tn[b]), "C07/fold.c", defs=["H_OP=%d" % k, "H_T1=%d" % a, "H_T2=%d" % b], unwind=13,
-                              loops={"h_cc#0": 13, "memset#0": 17, "memset#1": 130}, object_bits=10, timeout=900, solver="z3", native_cc=NATIVE,
+                              loops={"h_cc#0": 13, "memset#0": 17, "memset#1": 130}, object_bits=10, timeout=900 if tier == "quick" else 5400, solver="z3", native_cc=NATIVE,
                               sample="check_assign_op folding `a %s b` for a constant a of type %s and b of type %s, every value: result type and value as C11" % (o, tn[a], tn[b])))
             continue
         obs.append(Ob("fold." + o, "C07/fold.c", defs=["H_OP=%d" % k], unwind=13, loops={"h_cc#0": 13, "memset#0": 17, "memset#1": 130},
